@@ -140,6 +140,20 @@ def model_check_v1(wd, tier, mc_stats=None, variants=True):
         stats.append(st)
         if not r["ok"]:
             problems.append("V1Store %s: rc=%s after %ss %s (see %s)" % (st["instance"], r.get("rc"), r["seconds"], r["errors"][:2] or r["fatal"], r["out"]))
+    # induction step (V1Store!SpecInd): every store within the id bounds that satisfies RowsOK, one call
+    ind_plans = [dict(maxc=3, maxt=1, names=("a",))] if tier == "quick" else [dict(maxc=3, maxt=1, names=("a", "b")), dict(maxc=3, maxt=2, names=("a",))]
+    for i, kw in enumerate(ind_plans):
+        r = run_ind_v1(wd, "v1ind_%d" % i, consts_v1("current", **kw), workers=8 if tier == "quick" else 16, timeout=900 if tier == "quick" else 5400,
+                       xmx="8g" if tier == "quick" else "24g")
+        st = {"instance": "V1Store!SpecInd(%s)" % ",".join("%s=%s" % kv for kv in sorted(kw.items())), "states": r["states"] or 0,
+              "transitions": r["generated"] or 0, "depth": r["depth"], "seconds": r["seconds"], "ok": r["ok"]}
+        stats.append(st)
+        if not r["ok"]:
+            problems.append("V1Store induction %s: rc=%s after %ss %s (see %s)" % (st["instance"], r.get("rc"), r["seconds"], r["errors"][:2] or r["fatal"], r["out"]))
+    if variants:
+        r = run_ind_v1(wd, "v1ind_variant", consts_v1("set-parent-leaves-subtree", maxc=3, maxt=1, names=("a",)), timeout=900)
+        if not (r["errors"] and not r["fatal"]):
+            problems.append("V1Store induction with variant set-parent-leaves-subtree was NOT reported by TLC, see %s" % r["out"])
     sens = {}
     for variant in (V1_VARIANTS if variants else ()):
         r = run_v1(wd, "v1store_" + variant, consts_v1(variant, maxc=3, maxt=2, calls=4), timeout=900)
